@@ -270,7 +270,7 @@ def check_case(ctx, case):
 # generators
 # ---------------------------------------------------------------------------
 RATIOS = [1, 1, 1.26, 1.41, 1.42, 1.5, 2, 2.82, 2.83, 3, 4, 5.6, 8, 16, 100,
-          1e3, 1e6]
+          1e3, 1e6, 2.0 ** 20, 2.0 ** 35, 2.0 ** 36, 2.0 ** 40, 1e12]
 BASES = [1.0, 0.8, 1e-2, 0.5, 3.3, 20.0, 1000.0, 1e6, 4e4, 1e9, 1e13 / 1e6]
 
 
